@@ -4,7 +4,7 @@ import SleapVerif.Model.Pipelines
 Driver for C18 (runs the model at `R := Rat`).
 
 `sample <fw> <mt> <isRgb> <maxH> <maxW> <cfgMaxH|-1> <cfgMaxW|-1> <scale> <maxStride> <cropH> <cropW>
-        <anchor|-1> <maxInst> <alias> <user_instances_only> <cmSigma> <cmStride> <pafSigma> <pafStride> <edges: n (u v)*>
+        <anchor|-1> <maxInst> <chunkMaxInst|-1> <alias> <user_instances_only> <cmSigma> <cmStride> <pafSigma> <pafStride> <edges: n (u v)*>
         <h> <w> <c> <k> <labelled: n (is_predicted m (x y)*)*>`   (the raw labelled frame, file order)
   → `ok img=<sexpr>;shape=c h w;n=<num>;rank=<r>;inst=<ll>;cen=<l>;bbox=<l>;eff=<q> <q>;tgt=<targets>`
 `count <fw> <mt> <user_instances_only> <labelled>` → `ok <n>` | `raise` (samples a framework yields for one labelled frame).
@@ -72,13 +72,13 @@ def sampleLine : P String := do
   let fw ← tok; let mt ← tok
   let isRgb ← bool; let maxH ← nat; let maxW ← nat; let cH ← onat; let cW ← onat
   let scale ← rat; let ms ← nat; let cropH ← nat; let cropW ← nat; let anchor ← onat
-  let maxInst ← nat; let alias ← bool; let uio ← bool
+  let maxInst ← nat; let cmi ← onat; let alias ← bool; let uio ← bool
   let cmS ← rat; let cmSt ← nat; let pS ← rat; let pSt ← nat; let ed ← edges
   let h ← nat; let w ← nat; let c ← nat; let k ← nat; let ll ← labelled
   match fwOf fw, mtOf mt with
   | some fw, some mt =>
     let cfg : Cfg Rat := { mt, isRgb, maxH, maxW, cfgMaxH := cH, cfgMaxW := cW, scale, maxStride := ms,
-                           cropH, cropW, anchor, maxInstances := maxInst, aliasing := alias }
+                           cropH, cropW, anchor, maxInstances := maxInst, chunkMaxInst := cmi, aliasing := alias }
     let fr : Frame Rat := ({ h, w, c, labelled := ll } : RawFrame Rat).seenBy fw mt uio
     let hd : Heads Rat := { cmSigma := cmS, cmStride := cmSt, pafSigma := pS, pafStride := pSt, edges := ed }
     let s := sampleOf numRat fw cfg fr k
@@ -103,6 +103,12 @@ def dpLine : P String := do
     let s ← rat; let h ← nat; let w ← nat; let c ← nat; let ii ← insts
     let r := dpResizer s ((.norm .raw : Img Rat), ii)
     pure s!"ok img={imgStr (c, h, w) r.1};inst={instsStr r.2}"
+  | "sizematcher" =>
+    let h ← nat; let w ← nat; let mh ← nat; let mw ← nat
+    let show_ (p : SizePlan Rat) : String := match p with
+      | some ((th, tw), e) => s!"{th} {tw} {ratStr e}"
+      | none => "raise"
+    pure s!"ok block={show_ (dpSizeMatcher h w mh mw)};fn={show_ (fnSizeMatch numRat h w mh mw)}"
   | "pad" =>
     let m ← nat; let h ← nat; let w ← nat; let c ← nat
     pure s!"ok img={imgStr (c, h, w) (dpPadToStride m (.norm .raw : Img Rat))}"
